@@ -18,9 +18,13 @@ LEVEL_TEXT = ("Theorems: (model) a capacity-C arena with the ideal guard grants 
               "if every request is granted it writes nothing (nnz_overflow_never_silent); a dropped row leaves rownnz = 0, no rowadr, no row (<builder>_dropped_row_has_no_nonzeros). "
               "Two defects were found by this check and repaired in /repo: 'fix: equality connect/weld rows were dropped silently when they fit the row capacity exactly' and "
               "'fix: njmax_nnz overflow was silent unless the last constraint row happened to record it' (+ 'fix: a row dropped for lack of njmax_nnz kept its non-zero count'); their triggers "
-              "(exact-fit njmax with connect/weld, njmax_nnz sweep below the need) stay in the sweep as regression cases. 'Equal to ample capacities' is sampled by capacity sweeps 0..need+1.")
+              "(exact-fit njmax with connect/weld, njmax_nnz sweep below the need) stay in the sweep as regression cases. 'Equal to ample capacities' is sampled by capacity sweeps 0..need+1. "
+              "Row-kind rotation of the njmax_nnz budget (sparse): a second scene holds joint/tendon/connect/weld equalities, dof and tendon friction, slide/hinge/ball limits, limits of fixed and "
+              "spatial tendons (forced beyond their ranges) and contacts of both cones; the capacity is placed one below / exactly at the end of a row of EVERY constraint type present, so each "
+              "builder's own overflow branch is the one dropping the row; per world: a capacity bit, or qacc and qvel after step equal the ample-capacity run.")
 LEVEL_NOTE = ("C16_partial: the arena/report theorems are per counter (rows, contacts, pairs, nnz); that the nnz requests are non-negative and that the sparse efc_J/efc_J_colind addresses of a "
-              "granted row stay below njmax_nnz is not proved; nvmax/CCD/EPA/hfield/contact-match budgets and the flexstrain builder (not translated) are covered by the sampled sweep only. "
+              "granted row stay below njmax_nnz is not proved; nvmax/CCD/EPA/hfield/contact-match budgets and the flexstrain builder (not translated) are covered by the sampled sweep only; the nnz branches of _equality_tendon, _friction_tendon, _limit_ball, _limit_tendon "
+              "and the contact Jacobian are covered by the row-kind rotation (run-time comparison with the ample-capacity run), not by a theorem about their generated definitions. "
               "Trusted: Lean kernel, tier-B translator (launch interception incl. serial replay of allocation results).")
 ASSUMPTIONS = ["allocation results are modelled as inputs of a task and supplied by the arena model in any serial order; CUDA atomics are assumed linearizable"]
 
@@ -39,6 +43,140 @@ XML = """
 """
 EQS = ['<connect body1="a" body2="e" anchor="0 0 0"/>', '<weld body1="a" body2="e"/>', '<joint joint1="h" joint2="s"/>', ""]
 
+# second scene: every row kind whose sparse builder has its own njmax_nnz branch (equalities joint/tendon/connect/weld, dof and tendon friction,
+# slide/hinge/ball limits, fixed and spatial tendon limits, contacts of both cones)
+XML_ROWS = """
+<mujoco>
+  <option timestep="0.005" jacobian="sparse" cone="{cone}"/>
+  <worldbody>
+    <geom type="plane" size="3 3 .1"/>
+    <body name="a" pos="0 0 .3"><freejoint name="fa"/><geom type="box" size=".1 .1 .1"/></body>
+    <body name="e" pos="0 .7 .6"><joint name="s" type="slide" axis="0 0 1" limited="true" range="-.05 .05"/><geom size=".05"/></body>
+    <body name="k0" pos="1 0 1">
+      <joint name="j0" type="hinge" axis="0 1 0" limited="true" range="-.1 .1" {fdof}/>
+      <geom type="capsule" size=".03" fromto="0 0 0 .3 0 0" contype="0" conaffinity="0"/>
+      <site name="s0" pos=".15 0 .05"/>
+      <body name="k1" pos=".3 0 0">
+        <joint name="j1" type="hinge" axis="0 1 0"/>
+        <geom type="capsule" size=".03" fromto="0 0 0 .3 0 0" contype="0" conaffinity="0"/>
+        <site name="s1" pos=".15 0 .05"/>
+        <body name="k2" pos=".3 0 0">
+          <joint name="j2" type="ball" limited="true" range="0 .2"/>
+          <geom type="capsule" size=".03" fromto="0 0 0 .3 0 0" contype="0" conaffinity="0"/>
+          <site name="s2" pos=".15 0 .05"/>
+        </body>
+      </body>
+    </body>
+    <body name="c" pos="-.5 0 .11"><freejoint name="fc"/><geom type="sphere" size=".1"/></body>
+  </worldbody>
+  <tendon>
+    <fixed name="t0" limited="true" range="-.2 .2" {ften}><joint joint="j0" coef="1"/><joint joint="j1" coef="1"/><joint joint="s" coef=".5"/></fixed>
+    <fixed name="t1" limited="true" range="-.1 .1"><joint joint="j1" coef="1"/><joint joint="j0" coef="-1"/></fixed>
+    <spatial name="t2" limited="true" range="0 .55" {fspa}><site site="s0"/><site site="s1"/><site site="s2"/></spatial>
+    <fixed name="t3"><joint joint="j1" coef="1"/><joint joint="s" coef="1"/></fixed>
+  </tendon>
+  <equality>{eq}</equality>
+</mujoco>
+"""
+EQS_ROWS = ['<tendon tendon1="t3" tendon2="t1"/>', '<connect body1="a" body2="e" anchor="0 0 0"/>', '<joint joint1="j1" joint2="s"/>', '<weld body1="c" body2="e"/>',
+            '<tendon tendon1="t3"/><joint joint1="j0" joint2="j1"/>', ""]
+_TYPE_NAME = {0: "equality", 1: "friction_dof", 2: "friction_tendon", 3: "limit_joint", 4: "limit_tendon", 5: "contact_frictionless", 6: "contact_pyramidal", 7: "contact_elliptic"}
+
+
+def _rows_case(mujoco, rng, c):
+  """model + state of case c of the row-kind rotation; tendon limits/friction are forced, not hoped for"""
+  cone = "pyramidal" if c % 2 == 0 else "elliptic"
+  eq = EQS_ROWS[c % len(EQS_ROWS)]
+  xml = XML_ROWS.format(cone=cone, eq=eq, fdof='frictionloss=".1"' if c % 3 != 1 else "", ften='frictionloss=".05"' if c % 3 != 2 else "",
+                        fspa='frictionloss=".02"' if c % 2 == 1 else "")
+  mjm = mujoco.MjModel.from_xml_string(xml)
+  mjd = mujoco.MjData(mjm)
+  adr = lambda n: int(mjm.jnt_qposadr[mujoco.mj_name2id(mjm, mujoco.mjtObj.mjOBJ_JOINT, n)])
+  mode = c % 4
+  mjd.qpos[adr("fa") + 2] = 0.09 if mode != 3 else 0.3                   # box in the floor (4 contacts) / above
+  mjd.qpos[adr("fc") + 2] = 0.09 if mode in (0, 2) else 0.3             # sphere in the floor / above
+  mjd.qpos[adr("s")] = [0.1, 0.0, -0.1, 0.0][mode]                       # slide limit active / not
+  mjd.qpos[adr("j0")] = [0.3, 0.0, -0.3, 0.25][mode]                     # hinge limit; with j1: t0 and t1 beyond their ranges
+  mjd.qpos[adr("j1")] = [0.25, 0.3, 0.2, -0.25][mode]
+  ang = [0.5, 0.0, 0.4, 0.1][mode]                                       # ball beyond its 0.2 limit / inside
+  ax = rng.normal(size=3); ax /= np.linalg.norm(ax)
+  mjd.qpos[adr("j2"): adr("j2") + 4] = np.concatenate([[np.cos(ang / 2)], np.sin(ang / 2) * ax])
+  mjd.qvel[:] = rng.normal(size=mjm.nv) * 0.1
+  return xml, mjm, mjd, eq, cone
+
+
+def _rows_sweep(ctx, ncases, acc, rng, offset=0):
+  """njmax_nnz sweep with the capacity put just below / exactly at the end of a row of EVERY constraint type present, so that each builder's own
+  overflow branch is the one that drops the row; per world: NJMAX_NNZ bit, or qacc and the step result equal the ample-capacity run"""
+  import mujoco
+  import mujoco_warp as mjw
+  NNZBIT = int(mjw.OverflowType.NJMAX_NNZ) if hasattr(mjw, "OverflowType") else None
+  site = "constraint.make_constraint (njmax_nnz)"
+  for c0 in range(ncases):
+    c = c0 + offset
+    xml, mjm, mjd, eq, cone = _rows_case(mujoco, rng, c)
+    nworld = 1 + c % 2
+    m0, d0 = _step_with(mjw, mjm, mjd, nworld, 200, 100 * nworld)
+    if int(d0.overflow.numpy().astype(int).max()) & 0x1FF:
+      acc.hit("rows:ample-run-overflowed")
+      continue
+    nefc_w = d0.nefc.numpy().astype(int)
+    ra, rn, ty = d0.efc.J_rowadr.numpy(), d0.efc.J_rownnz.numpy(), d0.efc.type.numpy()
+    ends = [(ra[w][: nefc_w[w]] + rn[w][: nefc_w[w]]).astype(int) for w in range(nworld)]
+    need_w = [int(e.max()) if len(e) else 0 for e in ends]
+    ref_qacc, ref_qvel = d0.qacc.numpy().copy(), d0.qvel.numpy().copy()
+    if not (np.isfinite(ref_qacc).all() and np.isfinite(ref_qvel).all()):
+      acc.hit("rows:ample-run-not-finite")
+      continue
+    # capacities: for each constraint type present (in world 0), the end of one of its rows (rotating) minus one (that row is the first not to fit)
+    # and that end itself (exact fit of that row, the next one overflows)
+    caps = {}
+    t0 = ty[0][: nefc_w[0]].astype(int)
+    for t in sorted(set(t0.tolist())):
+      rows = np.nonzero((t0 == t) & (rn[0][: nefc_w[0]] > 0))[0]
+      if not len(rows):
+        continue
+      r = int(rows[(c // 2) % len(rows)])
+      e = int(ends[0][r])
+      caps.setdefault(e - 1, _TYPE_NAME.get(t, str(t)))
+      if c % 3 == 0:
+        caps.setdefault(e, "fit:" + _TYPE_NAME.get(t, str(t)))
+    caps.setdefault(max(need_w), "exact")
+    for nnz, kind in sorted(caps.items()):
+      if nnz < 0:
+        continue
+      try:
+        m, d = _step_with(mjw, mjm, mjd, nworld, 200, 100 * nworld, njmax_nnz=nnz)
+      except ValueError:
+        continue
+      acc.evals += 1
+      acc.distinct.add(("rows", c, nnz))
+      ovf = d.overflow.numpy().astype(int)
+      q, qv = d.qacc.numpy(), d.qvel.numpy()
+      for w in range(nworld):
+        short = need_w[w] > nnz
+        bit = bool(ovf[w] & 0x1FF)
+        if short:
+          acc.hit(f"rows:short:{kind}")
+        if bit:
+          if not short:
+            acc.hit("rows:bit-although-enough")   # not judged here (C16 is about silence)
+          continue
+        tol_a = 1e-3 * (1 + np.abs(ref_qacc[w]).max())
+        tol_v = 1e-3 * (1 + np.abs(ref_qvel[w]).max())
+        same = np.allclose(q[w], ref_qacc[w], rtol=1e-3, atol=tol_a) and np.allclose(qv[w], ref_qvel[w], rtol=1e-3, atol=tol_v)
+        if not same:
+          dv = float(np.nanmax(np.abs(qv[w] - ref_qvel[w]))) if np.isfinite(qv[w]).any() else float("nan")
+          acc.find(f"njmax_nnz={nnz} (world {w} needs {need_w[w]}; capacity placed at a {kind} row, eq={eq[1:8] or 'none'}, cone={cone}): no capacity bit in world {w} but "
+                   f"qacc/qvel after step differ from the ample-capacity run (max |d qvel| {dv:.3g})", site, "nnz-row-dropped-silently", xml=xml, world=w, njmax_nnz=nnz, case=c)
+        elif short:
+          # demand (sum of the granted rows of the ample run) exceeds the capacity, result equal: still a dropped row by the builders' contract
+          acc.find(f"njmax_nnz={nnz} < need {need_w[w]} of world {w} (capacity at a {kind} row) but its overflow word has no capacity bit", site, "silent-overflow",
+                   xml=xml, world=w, njmax_nnz=nnz, case=c)
+    for t in sorted(set(t0.tolist())):
+      acc.hit("rows:type:" + _TYPE_NAME.get(t, str(t)))
+    acc.hit(f"rows:eq:{eq[1:6] or 'none'}")
+
 
 def _step_with(mjw, mjm, mjd, nworld, njmax, naconmax, njmax_nnz=None):
   m = mjw.put_model(mjm)
@@ -52,7 +190,7 @@ def _step_with(mjw, mjm, mjd, nworld, njmax, naconmax, njmax_nnz=None):
   return m, d
 
 
-def _run(ctx, ncases, rec, per_kernel=1):
+def _run(ctx, ncases, rec, per_kernel=1, nrows=4):
   import mujoco
   import mujoco_warp as mjw
   rng = np.random.default_rng(ctx.seed * 1000 + 16)
@@ -140,20 +278,24 @@ def _run(ctx, ncases, rec, per_kernel=1):
   else:
     scenario()
     kc = None
+  # row-kind rotation of the njmax_nnz budget (not intercepted: black-box comparison with the ample-capacity run of the same code)
+  _rows_sweep(ctx, nrows, acc, rng, offset=ctx.seed * nrows)
   return acc, kc
 
 
 RULE = ("scene with floor contacts, joint limit, friction loss and one of {connect, weld, joint equality, none}; dense/sparse, both cones, 1-2 worlds; each case first run with ample capacities, "
         "then njmax swept over {0,1,need-1,need,need+1,random} x naconmax over {need-1,need,need+1}, and for sparse Jacobians njmax_nnz over {0,1,need-1,need,need+1,random}; oracle PER WORLD: "
         "demand exceeds capacity => a capacity bit in that world's overflow word, no capacity bit => that world's qacc equals the ample result; "
-        "distinct = (case, njmax, naconmax); interception of the row builders with serial replay of allocation results")
+        "second scene (sparse only, rotation over equality kind {tendon, connect, joint, weld, tendon+joint, none} x dof/tendon/spatial-tendon friction x active slide/hinge/ball/fixed-tendon/"
+        "spatial-tendon limits x cone): njmax_nnz placed at end-1 (and every third case at end) of one row of every efc type present, same per-world oracle incl. qvel after step; "
+        "distinct = (case, njmax, naconmax) and (rows, case, njmax_nnz); interception of the row builders with serial replay of allocation results")
 
 
 def correspondence(ctx):
-  acc, kc = _run(ctx, 16 if ctx.thorough else 4, True, per_kernel=2 if ctx.thorough else 1)
+  acc, kc = _run(ctx, 16 if ctx.thorough else 4, True, per_kernel=2 if ctx.thorough else 1, nrows=24 if ctx.thorough else 6)
   return result(acc, RULE, kc=kc)
 
 
 def search(ctx, breaks):
-  acc, _ = _run(ctx, 24, False)
+  acc, _ = _run(ctx, 24, False, nrows=24)
   return search_result(acc, "ample-capacity run + overflow bits over a capacity sweep incl. exact fit")
